@@ -29,7 +29,7 @@ RULE = (
     "synthetic readers; layer F: 12 corpus layouts (1-2 corpora x 1-2 files, 1..11 docs, with/without action-and-meta-data lines, ASCII and "
     "2/3/4-byte UTF-8) x clients 1..5 x worker splits of 4 layouts x bulk {1,2,3,5,1000} x batch {1x,2x,3x} x percentage {100,75,50,34,1} and "
     "conflict modes; layer E: 12 layouts x clients {1,2,3,5} x 4 worker splits x bulk {1,3,1000} end to end through the real worker stack "
-    "(AsyncIoAdapter .. BulkIndex runner .. client) against the simulated _bulk endpoint; layer O: files of 49999..120007 lines (offset tables) with multi-byte content, one of them a new revision of a file whose offset table already existed, x clients {2,3} x two bulk sizes. "
+    "(AsyncIoAdapter .. BulkIndex runner .. client) against the simulated _bulk endpoint; layer O: files of 49999..200000 lines (offset tables; also sizes where a client group starts exactly on a table entry) with multi-byte content, one of them a new revision of a file whose offset table already existed, x clients {2,3} x two bulk sizes. "
     "non-trivial = more than one client or more than one bulk; distinct = the configuration"
 )
 ASSUMPTIONS = [
@@ -521,7 +521,8 @@ def large_track(nlines, tk, meta, revised=False):
 
 
 def large_cases(tier):
-    specs = [(100003, 2, False), (120007, 3, False), (50001, 1, False), (100004, 2, True), (100003, 1, False, True)]
+    # (100000 lines: the second of two client groups starts exactly on an offset-table entry, line 50000)
+    specs = [(100003, 2, False), (120007, 3, False), (50001, 1, False), (100004, 2, True), (100003, 1, False, True), (100000, 0, False), (200000, 1, True)]
     if tier == "thorough":
         specs += [(49999, 2, False), (50000, 3, False), (150001, 3, False), (200006, 2, True), (120007, 2, False, True), (100004, 3, True, True)]
     for spec in specs:
